@@ -163,12 +163,24 @@ def _other_database(db):
     other.AddCategory("mass", "mass")
     UnitDatabase.PushSingleton(other)
     try:
-        return (repr(Quantity.CreateEmpty()), repr(Scalar.CreateEmptyScalar(2.0) * Scalar(3.0, "kg")), repr(2.0 / Array([4.0], "kg")))
+        r = (repr(Quantity.CreateEmpty()), repr(Scalar.CreateEmptyScalar(2.0) * Scalar(3.0, "kg")), repr(2.0 / Array([4.0], "kg")))
     finally:
         UnitDatabase.PopSingleton()
+    # ... and in two databases that give the SAME symbols and categories other meanings (length, depth, time:
+    # other sizes in one, base units only in the other)
+    worlds._light_interlude()
+    return r
 
 
 QUERIES["<work with another database: empty quantity, empty Scalar * kg, 2 / Array(kg)>"] = _other_database
+def _mix(db):
+    return Quantity.CreateDerived(OrderedDict([("length", ["m", 1]), ("depth", ["cm", 1])]))
+
+
+QUERIES["Scalar(MIX{length:m,depth:cm},2)+(m*depth(m))"] = lambda db: Scalar(_mix(db), 2.0) + Scalar(1.0, "m", "length") * Scalar(1.0, "m", "depth")
+QUERIES["Scalar(MIX,2)-Scalar(1,'s') [fails]"] = lambda db: Scalar(_mix(db), 2.0) - Scalar(1.0, "s", "time")
+QUERIES["Scalar(MIX,60)**2"] = lambda db: Scalar(_mix(db), 60.0) ** 2
+QUERIES["Quantity.CreateDerived(MIX)"] = lambda db: _mix(db)
 QUERIES["Array.CreateEmptyArray([2])*Array([1],'m','new')"] = lambda db: Array.CreateEmptyArray([2.0]) * Array([1.0], "m", "new")
 QUERIES["Quantity.CreateEmpty()*ObtainQuantity('m','new')"] = lambda db: Quantity.CreateEmpty() * ObtainQuantity("m", "new")
 QUERIES["Scalar.CreateEmptyScalar(2).GetUnitDatabase() is db"] = lambda db: Scalar.CreateEmptyScalar(2.0).GetUnitDatabase() is db
